@@ -78,6 +78,12 @@ def check(run):
         one_case(run, [s2, s1], "angmom")
         run.count("tail regime")
         k += 1
+    from checks.common import near_cases, near_pair
+    for la, lb, sep, far in near_cases(run, 3):
+        s1, s2 = near_pair(rng, la, lb, sep, far)
+        one_case(run, [s1, s2], "momentum")
+        one_case(run, [s2, s1], "angmom")
+        run.count("nearly coincident centres")
     for _ in range(3 if run.tier == "quick" else 20):
         specs = random_basis(rng, 1, 3, lmax=3)
         t = random_transform(rng, sum(x.size for x in specs))
